@@ -92,6 +92,9 @@ func (t *Task) OpString() string {
 func (t *Task) Done() bool { return t.state == tsDone || t.state == tsDead }
 
 //go:norace
+func (t *Task) Dead() bool { return t.state == tsDead }
+
+//go:norace
 func (t *Task) Parked() bool { return t.state == tsParked }
 
 //go:norace
